@@ -138,6 +138,7 @@ void registerOpt(std::vector<Case>&);
 void registerExtra(std::vector<Case>&);
 void registerMoo(std::vector<Case>&);
 void registerStream(std::vector<Case>&);
+void registerMore(std::vector<Case>&);
 
 } // namespace c18
 #endif
